@@ -9,6 +9,7 @@ from .. import calg
 from ..pymodel import package
 from ..ratemodel import model as ratemodel, SELF
 from ..valueflow import Flow, norm_guard, show, simp, split_guard, walk
+from ..core import UNRECOGNISED
 from .c10 import grain_methods, GRAIN_CLASSES
 
 EXPLANATION = (
@@ -22,7 +23,9 @@ EXPLANATION = (
     "dependences are present with the right exponent and sign, whatever model-specific prefactors surround them, and every model switch "
     "multiplies its own process only; R6 the C constant eb_<alias> those templates read is defined for every surface species from that "
     "species' own binding energy, printed unformatted; R7 the built-in table reader keys a record by its whole first token (neutral and anion rows "
-    "stay apart) and stores float(second token).")
+    "stay apart) and stores float(second token); R8 a Species instance handed to a reaction is kept (not re-parsed / copied); R9 the renderer "
+    "pastes what <reaction>.rateexpr(grain) returns and no caller catches the refusal; R12 (HH93) tunnelling terms are switched on by name for GH / "
+    "GH2 only; R13 Species.massnumber (alias A) is computed from the species' own element counts, never looked up by a spelling of the species.")
 ASSUMPTIONS = [
     "numerical prefactors and model-specific coverage factors of Hasegawa & Herbst 1993 / Roberts et al. 2007 are NOT decided (needs an independent transcription of the models)",
     "registry closure of the symbols used is C10",
@@ -96,6 +99,9 @@ def strip_conds(e, guards):
     if e[0] == "cond":
         if e[3][0] == "num" and e[3][1] == 0.0:
             guards.append(calg.unparse(e[1]))
+            if e[1][0] == "bin" and e[1][1] in ("<=", "<"):
+                # `b <= a` is `a >= b`, `b < a` is `a > b`: the guard is also listed the other way round
+                guards.append(calg.unparse(("bin", ">=" if e[1][1] == "<=" else ">", e[1][3], e[1][2])))
             return strip_conds(e[2], guards)
         return ("cond", e[1], strip_conds(e[2], guards), strip_conds(e[3], guards))
     if e[0] == "bin":
@@ -176,7 +182,13 @@ def check(ctx):
     # "... or is refused with an error": what the grain model refuses is refused by the renderer too -- the emitted expression is
     # reac.rateexpr(grain) itself, nothing catches NotImplementedError and substitutes a rate (shared with C06.R1)
     from .c06 import _r1 as assignment_rule
-    ctx.absorb(assignment_rule, "R9")
+    # (how statement i is paired with reaction i is C06's subject: when that pairing is spelled in a way C06.R1 does not read, this
+    # property keeps its own half -- the rate comes out of <reaction>.rateexpr(..) and a refusal is not caught -- and says so in a note)
+    pairing = []
+    ctx.absorb(assignment_rule, "R9", only=lambda o: not (o.outcome == UNRECOGNISED and o.key in ("_assign_rates:iteration", "_assign_rates:return") and (pairing.append(o.msg) or True)))
+    if pairing:
+        ctx.note("C06.R1 does not read how _assign_rates pairs statements with reactions: " + pairing[0][:120])
+        _r9_rate_from_rateexpr(ctx, pkg)
     _r9_refusal_not_caught(ctx, pkg)
     # occurrences count: no set / dict keyed by the species stands between a reactant list and the terms built from it
     from ..multiplicity import rule as multiplicity_rule
@@ -186,6 +198,110 @@ def check(ctx):
     from .c14 import _r6 as live_views
     ctx.absorb(lambda sub: live_views(sub, package(sub.tree)), "R11", only=lambda o: "Network.grains:" in o.key and o.outcome != "MISSING")
     _r12_tunnelling(ctx, pkg)
+    _r13_own_mass(ctx, pkg)
+
+
+def _r13_own_mass(ctx, pkg):
+    """`{spec.A}` / `{spec.massnumber}` in the rate templates is the species' OWN mass number: Species.massnumber (A is its alias)
+    derives every value it stores / returns from the species' element counts and the rows of the periodic / isotope tables.  A value
+    looked up in a table by a SPELLING of the species (name, gasname, basename, alias) is some table author's number for a name --
+    wrong wherever that table and the formula disagree (duplicate rows, typos), and shared by species the spelling merges."""
+    ci = pkg.cls("Species")
+    NAMELIKE = {"name", "gasname", "basename", "alias"}
+    getters = {"massnumber"}
+    a = ci.attrs.get("A")
+    if "A" in ci.methods:
+        getters.add("A")
+    elif not (isinstance(a, ast.Name) and a.id == "massnumber"):
+        ctx.unrec("R13", "Species.A", (SPECIES, 0), "`A` is no longer the alias of the massnumber property: what the templates paste as mass number is not known")
+    # the cache the getter returns when it is set: no other method fills it by a spelling of the species either
+    for mname, m in ci.methods.items():
+        if mname in getters:
+            continue
+        for st in ast.walk(m):
+            if isinstance(st, (ast.Assign, ast.AugAssign)) and any(isinstance(t, ast.Attribute) and t.attr == "_massnumber" for t in (st.targets if isinstance(st, ast.Assign) else [st.target])):
+                keys = [x for x in ast.walk(st.value) if isinstance(x, ast.Attribute) and isinstance(x.value, ast.Name) and x.value.id == "self" and x.attr in NAMELIKE]
+                looked = [c for c in ast.walk(st.value) if (isinstance(c, ast.Call) and isinstance(c.func, ast.Attribute) and c.func.attr == "get" and c.args and c.args[0] in keys)
+                          or (isinstance(c, ast.Subscript) and c.slice in keys)]
+                if looked:
+                    ctx.bad("R13", f"Species.{mname}:mass number cache", (SPECIES, st.lineno), f"`{ast.unparse(st)[:90]}` fills the mass number from a table keyed by a spelling of the species",
+                            expected="the mass number computed from the element counts", found=ast.unparse(looked[0])[:80])
+    for gname in sorted(getters):
+        fn = ci.methods.get(gname)
+        if fn is None:
+            ctx.missing("R13", f"Species.{gname}", (SPECIES, 0), "property vanished")
+            continue
+        ctx.saw(SPECIES, f"Species.{gname}")
+
+        def helper(name):
+            return pkg.resolve("Species", name)[1] if name.startswith("_") and not name.startswith("__") else None
+        fl = Flow(fn, SPECIES, resolver=helper)
+        vals = [(f, simp(f.value)) for f in fl.facts if f.value is not None and (f.kind == "return" or (f.kind == "attrstore" and f.extra.get("obj") == SELF))]
+        vals += [(None, simp(v)) for nm, lst in fl.assigns.items() for v, *_ in lst] + [(None, simp(f.value)) for f in fl.facts if f.kind == "augassign" and f.value is not None]
+        by_spelling, composed, opaque = [], False, []
+        for f, v in vals:
+            for x in walk(v):
+                if not isinstance(x, tuple) or not x:
+                    continue
+                key = x[3][0] if x[0] == "meth" and len(x) == 5 and x[2] == "get" and x[3] else x[2] if x[0] == "sub" and len(x) == 3 else None
+                if key is not None and key[0] == "attr" and key[1] == SELF and key[2] in NAMELIKE:
+                    by_spelling.append((f.line if f is not None else fn.lineno, show(x)[:80]))
+                if x == ("attr", SELF, "element_count"):
+                    composed = True
+            if f is not None and f.kind == "return" and not (v == ("attr", SELF, "_massnumber") or v[0] in ("const", "carried", "acc") or any(y == ("attr", SELF, "element_count") for y in walk(v))):
+                opaque.append(show(v)[:80])
+        # private helpers the getter calls (a generator of the per-element contributions, a summing helper) are part of it
+        from .c09 import method_closure
+        helpers = [h for h in method_closure(pkg, "Species", fn)[1:] if not any(ast.unparse(d) in ("property", "cached_property", "functools.cached_property") for d in h.decorator_list)]
+        for h in helpers:
+            if any(isinstance(x, ast.Attribute) and x.attr == "element_count" and isinstance(x.value, ast.Name) and x.value.id == "self" for x in ast.walk(h)):
+                composed = True
+            if any(isinstance(x, ast.Attribute) and isinstance(x.value, ast.Name) and x.value.id == "self" and x.attr in NAMELIKE for x in ast.walk(h)):
+                opaque.append(f"{h.name}() reads a spelling of the species")
+        if helpers:
+            # what the getter returns / accumulates then comes out of those helpers
+            opaque = [o for o in opaque if o.endswith("reads a spelling of the species")]
+        key_ = f"Species.{gname}:own composition"
+        if by_spelling:
+            ctx.bad("R13", key_, (SPECIES, by_spelling[0][0]), f"the mass number is looked up by a spelling of the species (`{by_spelling[0][1]}`) instead of being computed from its element counts: "
+                    "every grain rate of a species whose table row disagrees with its formula uses a mass number that is not its own",
+                    expected="sum over the periodic / isotope tables of element_count * (protons + neutrons)", found=by_spelling[0][1])
+        elif composed and not opaque:
+            ctx.ok("R13", key_, (SPECIES, fn.lineno), "the mass number is computed from the species' element counts")
+        else:
+            ctx.unrec("R13", key_, (SPECIES, fn.lineno), f"cannot see that the mass number is computed from the species' element counts: returns {opaque or 'nothing recognisable'}")
+
+
+def _r9_rate_from_rateexpr(ctx, pkg):
+    """Fallback of R9 when the statement builder is not read by C06.R1: within `_assign_rates` and the functions of its module it
+    calls, the rate texts are produced by `<reaction>.rateexpr(..)` (a call, or operator.methodcaller("rateexpr")), the grain-aware form
+    receiving an argument -- so a refusal raised in there propagates (together with _r9_refusal_not_caught)."""
+    F = "naunet/templateloader.py"
+    root = pkg.cls("TemplateLoader").methods.get("_assign_rates")
+    if root is None:
+        ctx.missing("R9", "_assign_rates", (F, 0), "TemplateLoader._assign_rates vanished")
+        return
+    scope, todo = [], [root]
+    while todo:
+        f = todo.pop()
+        if any(f is g for g in scope):
+            continue
+        scope.append(f)
+        for c in ast.walk(f):
+            if isinstance(c, ast.Call) and isinstance(c.func, ast.Attribute) and isinstance(c.func.value, ast.Name) and c.func.value.id in ("self", "cls", "TemplateLoader"):
+                g = pkg.resolve("TemplateLoader", c.func.attr)[1]
+                if g is not None:
+                    todo.append(g)
+            elif isinstance(c, ast.Call) and isinstance(c.func, ast.Name) and (F, c.func.id) in pkg.functions:
+                todo.append(pkg.functions[(F, c.func.id)])
+    calls = [c for f in scope for c in ast.walk(f) if isinstance(c, ast.Call) and isinstance(c.func, ast.Attribute) and c.func.attr == "rateexpr"]
+    by_name = [c for f in scope for c in ast.walk(f) if isinstance(c, ast.Call) and ast.unparse(c.func).split(".")[-1] == "methodcaller" and c.args
+               and isinstance(c.args[0], ast.Constant) and c.args[0].value == "rateexpr"]
+    with_grain = [c for c in calls if c.args or c.keywords] + [c for c in by_name if len(c.args) > 1]
+    if with_grain:
+        ctx.ok("R9", "_assign_rates:rate from rateexpr", (F, with_grain[0].lineno), "the rate text of a reaction is what <reaction>.rateexpr(<its grain>) returns")
+    else:
+        ctx.unrec("R9", "_assign_rates:rate from rateexpr", (F, root.lineno), "no call <reaction>.rateexpr(<grain>) found in _assign_rates or the functions it calls")
 
 
 def _r9_refusal_not_caught(ctx, pkg):
@@ -241,6 +357,10 @@ def _r8(ctx, pkg):
     tested = any(x == INST for f in rets for gd in f.guards for x in walk(simp(gd[0]))) or any(x == INST for f in rets if f.value is not None for x in walk(simp(f.value)))
     ok = bool(on_inst) and tested and all(v == ("param", arg) for v in on_inst)
     found = "; ".join(show(v)[:50] for v in on_inst) or "no return"
+    if not ok and (not tested or not on_inst or not any(v != ("param", arg) and any(x == ("param", arg) for x in walk(v)) for v in on_inst)):
+        # no `isinstance(<argument>, Species)` decision is visible, or what is returned for an instance is not an expression of it
+        ctx.unrec("R8", "Component._create_species:instance kept", ("naunet/component.py", fn.lineno), f"cannot see what _create_species returns for a Species instance: {found}")
+        return
     ctx.check(ok, "R8", "Component._create_species:instance kept", ("naunet/component.py", fn.lineno),
               "a Species instance handed in is the instance stored" if ok else
               "a Species instance handed in is replaced by a copy / re-parse: values set on the object (explicit binding energy, photodesorption yield, custom alias) are lost and "
@@ -265,6 +385,14 @@ def _r7(ctx, pkg):
     fl = Flow(fn, CHEMDATA)
     ret = [simp(f.value) for f in fl.facts if f.kind == "return"]
     acc = ret[0][1] if len(ret) == 1 and ret[0][0] == "acc" else None
+    if acc is None and len(ret) == 1 and ret[0][0] == "tuple":
+        # the reader returns several tables: the one the module binds to `rate12_binding_energy` (by position of the unpacking)
+        for st in pkg.modules[CHEMDATA].body:
+            if isinstance(st, ast.Assign) and len(st.targets) == 1 and isinstance(st.targets[0], ast.Tuple) and isinstance(st.value, ast.Call) \
+                    and isinstance(st.value.func, ast.Name) and st.value.func.id == "_read_binding_energy" and len(st.targets[0].elts) == len(ret[0][1]):
+                for i, t in enumerate(st.targets[0].elts):
+                    if isinstance(t, ast.Name) and t.id == "rate12_binding_energy" and ret[0][1][i][0] == "acc":
+                        acc = ret[0][1][i][1]
     writes = [f for f in fl.facts if f.target == acc and f.kind in ("mutate", "store")]
     ok = False
     found = ""
@@ -380,6 +508,35 @@ CONST_C = "naunet/templates/base/cpp/src/naunet_constants.cpp.j2"
 CONST_H = "naunet/templates/base/cpp/include/naunet_constants.h.j2"
 
 
+def _network_field(ctx, field):
+    """value the renderer gives to `network.<field>` of the templates: the argument of the NetworkInfo(..) construction in
+    templateloader.py bound to that dataclass field (IR, simplified), or None"""
+    from .c02 import dataclass_fields, _bind_args
+    pkg = package(ctx.tree)
+    TL = "naunet/templateloader.py"
+    try:
+        fields = dataclass_fields(pkg, "NetworkInfo")
+    except Exception:
+        return None
+    if field not in fields:
+        return None
+    found = []
+    for ci in [pkg.cls("TemplateLoader")]:
+        for fn in ci.methods.values():
+            if not any(isinstance(c, ast.Call) and ast.unparse(c.func).split(".")[-1] == "NetworkInfo" for c in ast.walk(fn)):
+                continue
+            fl = Flow(fn, TL)
+            vals = [v for lst in fl.assigns.values() for v, *_ in lst] + [f.value for f in fl.facts if f.value is not None]
+            for v in vals:
+                for x in walk(v):
+                    if isinstance(x, tuple) and len(x) == 4 and x[0] == "call" and x[1] == ("global", "NetworkInfo") and x not in found:
+                        found.append(x)
+    if len(found) != 1:
+        return None
+    a = _bind_args(fields, found[0]).get(field)
+    return simp(a) if a is not None else None
+
+
 def _r6(ctx):
     """The templates that say `eb_<alias>` read a C constant: it must be defined, for every ice species, from the SAME species'
     binding energy, printed as Python prints the float (repr round-trips; a format filter rounds)."""
@@ -396,18 +553,54 @@ def _r6(ctx):
         var, it_, body = lp[1], lp[2], lp[3]
         n += 1
         k = f"{rel.rsplit('/', 1)[1]}:eb_"
-        dom_ok = it_ == ("filter", "selectattr", ("attr", ("name", "network"), "species"), (("const", "is_surface"),), ()) or it_ == ("attr", ("name", "network"), "species")
-        ctx.check(dom_ok and lp[7] is None, "R6", f"{k}:every ice species", (rel, lp[5]), "one constant per surface species of the network", expected="network.species | selectattr('is_surface')", found=J.show(it_))
+        SPECS = ("attr", ("name", "network"), "species")
+        dom_ok = it_ == ("filter", "selectattr", SPECS, (("const", "is_surface"),), ()) or it_ == SPECS
+        base_, fs_ = J.unfilter(it_)
+        dkey = f"{k}:every ice species"
+        if dom_ok and lp[7] is None:
+            ctx.ok("R6", dkey, (rel, lp[5]), "one constant per surface species of the network")
+        elif base_ == SPECS and (lp[7] is not None or any(f[0] in ("select", "reject", "selectattr", "rejectattr", "slice", "batch") for f in fs_)):
+            # understood and wrong: the species list with a further selection
+            ctx.bad("R6", dkey, (rel, lp[5]), "one constant per surface species of the network", expected="network.species | selectattr('is_surface')", found=J.show(it_) + (f" if {J.show(lp[7])}" if lp[7] is not None else ""))
+        elif base_[0] == "attr" and base_[1] == ("name", "network") and not fs_ and lp[7] is None and _network_field(ctx, base_[2]) is not None:
+            # another field of the NetworkInfo handed to the templates: what the renderer puts into it
+            fv = _network_field(ctx, base_[2])
+            sel = None
+            if fv[0] == "comp" and fv[1] in ("list", "gen") and len(fv[3]) == 1 and fv[3][0][1][0] == "attr" and fv[3][0][1][2] == "species" and fv[2] == fv[3][0][0]:
+                sel = [c for c in fv[3][0][2]]
+            surf = ("attr", fv[3][0][0], "is_surface") if sel is not None else None
+            extra = [c for c in (sel or []) for x in split_guard((c, True)) if x != (surf, True)]
+            if sel is not None and any(x == (surf, True) for c in sel for x in split_guard((c, True))) and not extra:
+                ctx.ok("R6", dkey, (rel, lp[5]), "one constant per surface species of the network")
+            elif sel is not None and extra:
+                ctx.bad("R6", dkey, (rel, lp[5]), "one constant per surface species of the network", expected="network.species | selectattr('is_surface')",
+                        found=f"network.{base_[2]} = the species selected by {'; '.join(show(c)[:70] for c in sel)}")
+            else:
+                ctx.unrec("R6", dkey, (rel, lp[5]), f"cannot tell which species the eb_ constants are emitted for: network.{base_[2]} = {show(fv)[:100]}")
+        else:
+            ctx.unrec("R6", dkey, (rel, lp[5]), f"cannot tell which species the eb_ constants are emitted for: {J.show(it_)}")
         idx = [i for i, x in enumerate(body) if x[0] == "text" and x[1].rstrip().endswith("eb_")][0]
         name = body[idx + 1] if idx + 1 < len(body) else None
-        ctx.check(name is not None and name[0] == "out" and name[1] == ("attr", var, "alias"), "R6", f"{k}:name", (rel, lp[5]), "the constant is named after the loop species' alias",
-                  expected="eb_{{ s.alias }}", found=J.show(name[1]) if name and name[0] == "out" else str(name)[:60])
+        nkey = f"{k}:name"
+        if name is not None and name[0] == "out" and name[1] == ("attr", var, "alias"):
+            ctx.ok("R6", nkey, (rel, lp[5]), "the constant is named after the loop species' alias")
+        elif name is not None and name[0] == "out" and name[1][0] == "attr" and name[1][1] == var:
+            ctx.bad("R6", nkey, (rel, lp[5]), "the constant is named after the loop species' alias", expected="eb_{{ s.alias }}", found=J.show(name[1]))
+        else:
+            ctx.unrec("R6", nkey, (rel, lp[5]), f"cannot read what follows `eb_` in the loop body: {J.show(name[1]) if name and name[0] == 'out' else str(name)[:60]}")
         if need_value:
             val = body[idx + 3] if idx + 3 < len(body) and body[idx + 2][0] == "text" and body[idx + 2][1].strip() == "=" else None
             good = val is not None and val[0] == "out" and val[1] in (("attr", var, "eb"), ("attr", var, "binding_energy"))
-            ctx.check(good, "R6", f"{k}:value", (rel, lp[5]), "the value is the same species' binding energy, printed unrounded" if good else
-                      "the constant is not the loop species' binding energy printed as-is (a filter/format rounds or another value is printed): rates reading eb_<alias> differ from those inlining the value",
-                      expected="{{ s.eb }}", found=J.show(val[1]) if val is not None and val[0] == "out" else str(val)[:80])
+            vbase = J.unfilter(val[1])[0] if val is not None and val[0] == "out" else None
+            # understood and wrong: a filter / format over the species' binding energy, or another attribute of the loop species
+            reads_eb = val is not None and val[0] == "out" and not good and any(x in (("attr", var, "eb"), ("attr", var, "binding_energy")) for x in J._subterms(val[1]))
+            other_attr = vbase is not None and not good and vbase[0] == "attr" and vbase[1] == var
+            if good or reads_eb or other_attr:
+                ctx.check(good, "R6", f"{k}:value", (rel, lp[5]), "the value is the same species' binding energy, printed unrounded" if good else
+                          "the constant is not the loop species' binding energy printed as-is (a filter/format rounds or another value is printed): rates reading eb_<alias> differ from those inlining the value",
+                          expected="{{ s.eb }}", found=J.show(val[1]) if val is not None and val[0] == "out" else str(val)[:80])
+            else:
+                ctx.unrec("R6", f"{k}:value", (rel, lp[5]), f"cannot read the value the eb_ constant is given: {J.show(val[1]) if val is not None and val[0] == 'out' else str(val)[:80]}")
     ctx.floor("R6", "eb_ loops", n, 2)
 
 
@@ -419,8 +612,12 @@ def _r1(ctx, rm, pkg):
     # rateexpr not overridden
     for G in GRAIN_CLASSES[1:]:
         ci = pkg.cls(G)
-        ctx.check("rateexpr" not in ci.methods, "R1", f"{G}:rateexpr not overridden", (ci.file, ci.node.lineno),
-                  "the dispatch and the NotImplemented -> NotImplementedError conversion are inherited from Grain.rateexpr")
+        if "rateexpr" not in ci.methods:
+            ctx.ok("R1", f"{G}:rateexpr not overridden", (ci.file, ci.node.lineno), "the dispatch and the NotImplemented -> NotImplementedError conversion are inherited from Grain.rateexpr")
+        else:
+            # an override is not wrong in itself; what it does with the dispatch / the refusal is not analysed
+            ctx.unrec("R1", f"{G}:rateexpr not overridden", (ci.file, ci.methods["rateexpr"].lineno), f"{G} overrides rateexpr: the dispatch and the NotImplemented -> NotImplementedError "
+                      "conversion of Grain.rateexpr are not known to apply")
     # the conversion itself, read off the facts of Grain.rateexpr whatever the spelling (`if rate is NotImplemented: raise`, a
     # guard clause `if rate is not NotImplemented: return rate` followed by the raise, the test in a helper): some raise of
     # NotImplementedError sits under `X is NotImplemented`, and every value the method returns is that X on a path where the test failed
@@ -444,10 +641,20 @@ def _r1(ctx, rm, pkg):
     rets = [f for f in rfl.facts if f.kind == "return" and f.value is not None]
     conv_ok = bool(raised) and bool(rets) and all(
         simp(f.value) in raised and any(t is not None and t[0] == simp(f.value) and not t[1] for gd in f.guards for sg in split_guard(gd) for t in [ni_test(sg)]) for f in rets)
-    ctx.check(conv_ok, "R1", "Grain.rateexpr:NotImplemented->error", (g.file, fn.lineno),
-              "a NotImplemented result raises NotImplementedError before anything is returned",
-              expected="if rate is NotImplemented: raise NotImplementedError(..)",
-              found="; ".join(f"return {show(simp(f.value))[:40]} under {[show(c)[:40] + '=' + str(p_) for c, p_ in f.guards][-2:]}" for f in rets)[:300])
+    # positive evidence of a swallowed refusal: something is returned on a path where the result IS NotImplemented, or the method
+    # (fully read: no private helper left as a call) never tests the result at all
+    under_ni = [f for f in rets if any(t is not None and t[1] for gd in f.guards for sg in split_guard(gd) for t in [ni_test(sg)])]
+    tests_any = any(ni_test(sg) is not None for f in rfl.facts for gd in f.guards for sg in split_guard(gd))
+    helpers_left = [x[2] for f in rfl.facts if f.value is not None for x in walk(f.value) if isinstance(x, tuple) and len(x) == 5 and x[0] == "meth" and x[1] == SELF
+                    and x[2].startswith("_") and not x[2].startswith("__")]
+    conv_msg = "a NotImplemented result raises NotImplementedError before anything is returned"
+    conv_found = "; ".join(f"return {show(simp(f.value))[:40]} under {[show(c)[:40] + '=' + str(p_) for c, p_ in f.guards][-2:]}" for f in rets)[:300]
+    if conv_ok:
+        ctx.ok("R1", "Grain.rateexpr:NotImplemented->error", (g.file, fn.lineno), conv_msg)
+    elif under_ni or (rets and not tests_any and not helpers_left):
+        ctx.bad("R1", "Grain.rateexpr:NotImplemented->error", (g.file, fn.lineno), conv_msg, expected="if rate is NotImplemented: raise NotImplementedError(..)", found=conv_found)
+    else:
+        ctx.unrec("R1", "Grain.rateexpr:NotImplemented->error", (g.file, fn.lineno), f"cannot see how Grain.rateexpr turns a NotImplemented result into an error: {conv_found}")
     n = 0
     for G in GRAIN_CLASSES:
         for tau, mname in sorted(gm.items(), key=lambda kv: str(kv[0])):
@@ -462,18 +669,30 @@ def _r1(ctx, rm, pkg):
             ok = kinds <= {"text", "notimplemented"} and kinds
             # an empty-string / None template would silently become a rate
             empty = [v for v in vs if v.kind == "text" and v.text.strip() in ("", "None")]
-            ctx.check(bool(ok) and not empty, "R1", key, (pkg.cls(dc).file, fn.lineno),
-                      f"{dc}.{mname} yields " + ("a rate template" if "text" in kinds else "NotImplemented (refused with NotImplementedError)") if ok and not empty else
-                      f"{dc}.{mname} returns {sorted(kinds)}{' / an empty template' if empty else ''}: a request the model does not implement would produce a rate",
-                      expected="template or NotImplemented")
+            if not empty and (not kinds or kinds - {"text", "notimplemented"}) and not [v for v in vs if v.kind == "other" and isinstance(v.raw, tuple) and v.raw[0] == "const"]:
+                # a value the reconstruction does not read as a template (a call left opaque, a delegate): not evidence of a rate
+                ctx.unrec("R1", key, (pkg.cls(dc).file, fn.lineno), f"{dc}.{mname} returns values that are not understood ({sorted(kinds) or 'nothing'})")
+            else:
+                ctx.check(bool(ok) and not empty, "R1", key, (pkg.cls(dc).file, fn.lineno),
+                          f"{dc}.{mname} yields " + ("a rate template" if "text" in kinds else "NotImplemented (refused with NotImplementedError)") if ok and not empty else
+                          f"{dc}.{mname} returns {sorted(kinds)}{' / an empty template' if empty else ''}: a request the model does not implement would produce a rate",
+                          expected="template or NotImplemented")
             # overrides call super() first
             if dc != "Grain":
                 first = fn.body[0]
                 if isinstance(first, ast.Expr) and isinstance(first.value, ast.Constant) and len(fn.body) > 1:
                     first = fn.body[1]
                 src = ast.unparse(first)
-                ctx.check(_is_base_call(pkg, dc, fn, mname, first), "R1", f"{dc}.{mname}:super-first", (pkg.cls(dc).file, fn.lineno),
-                          "the override first runs the base method (type and arity validation)", expected=f"super().{mname}(reac)", found=src[:60])
+                # anywhere else in the override: the base method's validation still runs, but not provably before the template is built
+                elsewhere = [x for x in ast.walk(fn) if isinstance(x, ast.Call) and isinstance(x.func, ast.Attribute) and x.func.attr == mname
+                             and ((isinstance(x.func.value, ast.Call) and isinstance(x.func.value.func, ast.Name) and x.func.value.func.id == "super")
+                                  or (isinstance(x.func.value, ast.Name) and x.func.value.id in pkg.mro(dc)[1:]))]
+                if _is_base_call(pkg, dc, fn, mname, first) or not elsewhere and not fn.decorator_list:
+                    ctx.check(_is_base_call(pkg, dc, fn, mname, first), "R1", f"{dc}.{mname}:super-first", (pkg.cls(dc).file, fn.lineno),
+                              "the override first runs the base method (type and arity validation)", expected=f"super().{mname}(reac)", found=src[:60])
+                else:
+                    ctx.unrec("R1", f"{dc}.{mname}:super-first", (pkg.cls(dc).file, fn.lineno), f"the override runs the base method, but not as its first statement ({src[:50]}): whether the "
+                              "validation precedes everything else is not decided")
     ctx.floor("R1", "(grain class, type) pairs", n, 45)
     # base validation present: some raise of the base method sits on the path where reac.reaction_type differs from the type the
     # dispatch sends here (read off the facts, private validation helpers put back)
@@ -488,7 +707,7 @@ def _r1(ctx, rm, pkg):
             fx = fn
         # the parameter may have any name: the reaction is the method's own (second) parameter
         pname = fx.args.args[1].arg if len(fx.args.args) > 1 else "reac"
-        ok = False
+        ok, other = False, []
         for f in Flow(fx, g.file, consts=rm.module_consts(g.file)).facts:
             if f.kind != "raise":
                 continue
@@ -498,9 +717,47 @@ def _r1(ctx, rm, pkg):
                     if c[0] == "cmp" and c[1] == ("Eq",) and len(c[2]) == 2 and not pol:
                         a, b = c[2]
                         for x, y in ((a, b), (b, a)):
-                            if x == ("attr", ("param", pname), "reaction_type") and rm.enum_of_ir("Grain", y) == tau:
-                                ok = True
-        ctx.check(ok, "R1", f"Grain.{mname}:type-validation", (g.file, fn.lineno), f"the base method refuses reactions whose type is not {tau}")
+                            if x == ("attr", ("param", pname), "reaction_type"):
+                                if rm.enum_of_ir("Grain", y) == tau:
+                                    ok = True
+                                elif rm.enum_of_ir("Grain", y) is not None:
+                                    other.append(rm.enum_of_ir("Grain", y))
+        # the validation as a decorator: `@only_for(ReactionType.X, ..)` with a module-level factory whose wrapper raises when
+        # `<reaction>.reaction_type != <factory parameter>` -- the test with the decorator's own argument in place of the parameter
+        opaque = []
+        for d in fn.decorator_list:
+            fac = pkg.functions.get((g.file, d.func.id)) if isinstance(d, ast.Call) and isinstance(d.func, ast.Name) else None
+            hit = False
+            if fac is not None and not d.keywords:
+                fparams = [a.arg for a in fac.args.args]
+                for w in ast.walk(fac):
+                    if isinstance(w, ast.If) and isinstance(w.test, ast.Compare) and len(w.test.ops) == 1 and isinstance(w.test.ops[0], ast.NotEq) \
+                            and any(isinstance(r, ast.Raise) for r in w.body):
+                        l, r = w.test.left, w.test.comparators[0]
+                        for x, y in ((l, r), (r, l)):
+                            if isinstance(x, ast.Attribute) and x.attr == "reaction_type" and isinstance(y, ast.Name) and y.id in fparams and fparams.index(y.id) < len(d.args):
+                                arg = d.args[fparams.index(y.id)]
+                                val = rm.enum_of_ir("Grain", ("attr", ("global", arg.value.id), arg.attr)) if isinstance(arg, ast.Attribute) and isinstance(arg.value, ast.Name) else None
+                                if val == tau:
+                                    ok = hit = True
+                                elif val is not None:
+                                    other.append(val)
+                                    hit = True
+            if not hit:
+                opaque.append(ast.unparse(d)[:40])
+        # calls the expansion could not put back may hold the validation
+        opaque += [ast.unparse(c.func) for c in ast.walk(fx) if isinstance(c, ast.Call) and isinstance(c.func, ast.Attribute) and isinstance(c.func.value, ast.Name)
+                   and c.func.value.id in ("self", "cls") and c.func.attr.startswith("_")]
+        key_ = f"Grain.{mname}:type-validation"
+        msg_ = f"the base method refuses reactions whose type is not {tau}"
+        if ok:
+            ctx.ok("R1", key_, (g.file, fn.lineno), msg_)
+        elif other:
+            ctx.bad("R1", key_, (g.file, fn.lineno), msg_, expected=f"raise unless reaction_type == {tau}", found=f"validated against type {sorted(set(other))}")
+        elif opaque:
+            ctx.unrec("R1", key_, (g.file, fn.lineno), f"no test of the reaction type is visible in the method; it may sit in {sorted(set(opaque))}, which is not understood")
+        else:
+            ctx.bad("R1", key_, (g.file, fn.lineno), msg_, expected=f"raise unless reaction_type == {tau}", found="no raise under a test of the reaction type")
 
 
 def _is_base_call(pkg, dc, fn, mname, st) -> bool:
@@ -533,7 +790,7 @@ def _r2_r5(ctx, rm, pkg):
         ctx.saw(ci.file, f"{cls}.{mname}")
         vs = [v for v in rm.variants(cls, mname) if v.kind == "text" and v.defined_in == cls]
         if not vs:
-            ctx.bad("R5", f"{cls}.{mname}", (ci.file, ci.methods[mname].lineno), "no rate template extracted from this method")
+            ctx.unrec("R5", f"{cls}.{mname}", (ci.file, ci.methods[mname].lineno), "no rate template could be extracted from this method")
             continue
         _TWO[0] = mname == _SURF[0]
         for vi, v in enumerate(vs):
@@ -576,7 +833,7 @@ def _r2_r5(ctx, rm, pkg):
                 e = strip_conds(calg.parse(txt), guards)
                 c = calg.canon(e)
             except calg.CParseError as ex:
-                ctx.bad("R5", f"{vkey}:syntax", (v.file, v.line), f"template is not a C expression: {ex}", found=txt[:160])
+                ctx.unrec("R5", f"{vkey}:syntax", (v.file, v.line), f"the template is not read as a C expression by the checker's parser ({ex}): {txt[:120]}")
                 continue
             for req in reqs:
                 nsig += 1
@@ -620,8 +877,11 @@ def _r2_r5(ctx, rm, pkg):
             if (cls, mname) in DEFAULT_YIELD:
                 ds = [ir for ir in v.holes.values() if (ir[1] if ir[0] == "fmt" else ir)[0] == "bool"]
                 dv = [(x[1] if x[0] == "fmt" else x)[2][1][1] for x in ds]
-                ctx.check(dv == [DEFAULT_YIELD[(cls, mname)]], "R5", f"{vkey}:default-yield", (v.file, v.line),
-                          f"species without a tabulated yield use the model's default {DEFAULT_YIELD[(cls, mname)]}", found=str(dv))
+                if dv:
+                    ctx.check(dv == [DEFAULT_YIELD[(cls, mname)]], "R5", f"{vkey}:default-yield", (v.file, v.line),
+                              f"species without a tabulated yield use the model's default {DEFAULT_YIELD[(cls, mname)]}", found=str(dv))
+                else:
+                    ctx.unrec("R5", f"{vkey}:default-yield", (v.file, v.line), "cannot see which yield a species without a tabulated one gets (no `<yield> or <default>` in the template)")
     ctx.floor("R5", "grain rate templates", n, 20)
     ctx.floor("R5", "signature requirements", nsig, 60)
     # RR07 accretion arms: electron arm has no mass dependence, the other arms have T^(1/2) A^(-1/2)
@@ -648,6 +908,39 @@ def _r2_r5(ctx, rm, pkg):
                       "accretion ~ (T/A_s)^(1/2) of the accreting species", expected="A_s^-1/2", found=f"{sorted(map(str, exps))} in {txt[:100]}")
 
 
+def _yields_as_display(fn):
+    """a generator whose body is nothing but `yield e1; yield e2; ..` produces, lazily and in this order, the elements of the display
+    (e1, e2, ..): -> a copy of the function returning that tuple (for rules that only ask in which ORDER the values are consulted)"""
+    import copy
+    body = [st for st in fn.body if not (isinstance(st, ast.Expr) and isinstance(st.value, ast.Constant))]
+    if not body or not all(isinstance(st, ast.Expr) and isinstance(st.value, ast.Yield) and st.value.value is not None for st in body):
+        return fn
+    new = copy.copy(fn)
+    new.body = [ast.copy_location(ast.Return(value=ast.Tuple(elts=[copy.deepcopy(st.value.value) for st in body], ctx=ast.Load())), body[0])]
+    return ast.fix_missing_locations(new)
+
+
+def _first_truthy(v):
+    """`next(filter(None, (a, b, c)), d)` / `next((x for x in (a, b, c) if x), d)` -- the first truthy of a, b, c, else d -- is the
+    chain `a or b or c or d` (same operands consulted in the same order, stopping at the same one)"""
+    if not isinstance(v, tuple):
+        return v
+    v = tuple(_first_truthy(x) if isinstance(x, tuple) else x for x in v)
+    if len(v) == 4 and v[0] == "call" and v[1] == ("global", "next") and len(v[2]) in (1, 2) and not v[3]:
+        src, seq = v[2][0], None
+        if src[0] == "call" and src[1] == ("global", "filter") and len(src[2]) == 2 and src[2][0] in (("const", None), ("global", "bool")):
+            seq = src[2][1]
+        elif src[0] == "comp" and src[1] in ("gen", "list") and len(src[3]) == 1 and src[3][0][0] == src[2] and src[3][0][2] == (src[2],):
+            seq = src[3][0][1]
+        if seq is not None and seq[0] == "call" and seq[1] in (("global", "iter"), ("global", "list"), ("global", "tuple")) and len(seq[2]) == 1:
+            seq = seq[2][0]
+        if seq is not None and seq[0] in ("tuple", "list") and seq[1] and not any(e[0] == "star" for e in seq[1]):
+            d = v[2][1] if len(v[2]) == 2 else None
+            parts = tuple(seq[1]) + ((d,) if d is not None and not (d[0] == "const" and not d[1]) else ())
+            return parts[0] if len(parts) == 1 else ("bool", "Or", parts)
+    return v
+
+
 def _r3(ctx, pkg):
     ci = pkg.cls("Species")
     ctx.saw(SPECIES, "Species.binding_energy")
@@ -659,7 +952,8 @@ def _r3(ctx, pkg):
             continue
         # private helper methods of Species the getter delegates the lookup to are read as part of it
         def helper(name):
-            return pkg.resolve("Species", name)[1] if name.startswith("_") and not name.startswith("__") else None
+            g = pkg.resolve("Species", name)[1] if name.startswith("_") and not name.startswith("__") else None
+            return _yields_as_display(g) if g is not None and any(isinstance(x, (ast.Yield, ast.YieldFrom)) for x in ast.walk(g)) else g
         fl = Flow(fn, SPECIES, resolver=helper)
         # no write to self.<attr> inside the getter (nor inside a private helper it calls)
         from .c09 import method_closure
@@ -694,8 +988,8 @@ def _r3(ctx, pkg):
         rets = [f for f in fl.facts if f.kind == "return" and f.value is not None]
         chains, opaque = [], []
         for f in rets:
-            v = simp(f.value)
-            tried = [c for g in f.guards for sg in split_guard((simp(g[0]), g[1])) for c in [falsy(sg)] if c is not None]
+            v = _first_truthy(simp(f.value))
+            tried = [c for g in f.guards for sg in split_guard((_first_truthy(simp(g[0])), g[1])) for c in [falsy(sg)] if c is not None]
             tried = [c for c in tried if kind_of(c)]
             parts = list(v[2]) if v[0] == "bool" and v[1] == "Or" else [v]
             opaque += [show(x)[:50] for x in parts if kind_of(x) is None]
@@ -717,7 +1011,11 @@ def _r3(ctx, pkg):
             ctx.bad("R3", key_, (SPECIES, fn.lineno), f"no return consults all of {want}", expected=f"self.{attr} or {user}.get(..) or <built-in>", found=found)
         if must_raise:
             raises = [f for f in fl.facts if f.kind == "raise"]
-            ctx.check(bool(raises), "R3", f"Species.{prop}:raises", (SPECIES, fn.lineno), "a surface species without any binding energy is refused with an error")
+            left = [x[2] for f in fl.facts if f.value is not None for x in walk(simp(f.value)) if isinstance(x, tuple) and len(x) == 5 and x[0] == "meth" and x[1] == SELF]
+            if raises or not left:
+                ctx.check(bool(raises), "R3", f"Species.{prop}:raises", (SPECIES, fn.lineno), "a surface species without any binding energy is refused with an error")
+            else:
+                ctx.unrec("R3", f"Species.{prop}:raises", (SPECIES, fn.lineno), f"no raise is visible in the getter; it may sit in {sorted(set(left))}, which is not read")
 
 
 HH = "naunet/grains/hh93grain.py"
@@ -802,6 +1100,38 @@ BENIGN = [
     {"name": "tunnelling-test-as-equalities", "file": HH, "old": '        elif re1.name in ["GH", "GH2"]:', "new": '        elif re1.name == "GH" or re1.name == "GH2":'},
 ]
 
+_MASS_INIT = "        self._massnumber = 0.0\n        for e in chemistrydata.periodic_table + chemistrydata.isotopes_table:\n"
+_CAND = "    def _eb_candidates(self):\n        yield %s\n        yield %s\n        yield chemistrydata.rate12_binding_energy.get(self.gasname)\n\n    @property\n    def binding_energy(self) -> float:\n"
+_OWN, _USR = "self._binding_energy", "chemistrydata.user_binding_energy.get(self.name)"
+_ONLY_FOR = ("def _only_for(rtype, process):\n    def decorate(builder):\n        def checked(self, reac):\n            if reac.reaction_type != rtype:\n"
+             "                raise ValueError(f\"The reaction type is not {process}\")\n            return builder(self, reac)\n        return checked\n    return decorate\n\n\nclass Grain(Component):\n")
+
+
+def _decorated(member):
+    return [{"file": GR, "old": "class Grain(Component):\n", "new": _ONLY_FOR},
+            {"file": GR, "old": "    def rate_depletion(self, reac: Reaction) -> str:\n        if reac.reaction_type != ReactionType.GRAIN_FREEZE:\n            raise ValueError(\"The reaction type is not depletion\")\n",
+             "new": f"    @_only_for(ReactionType.{member}, \"depletion\")\n    def rate_depletion(self, reac: Reaction) -> str:\n"}]
+
+
+MUTANTS += [
+    {"name": "massnumber-from-table-by-gasname", "file": SPECIES, "old": _MASS_INIT,
+     "new": "        tabulated = chemistrydata.rate12_binding_energy.get(self.gasname)\n        if tabulated:\n            self._massnumber = tabulated\n            return self._massnumber\n" + _MASS_INIT, "rules": ["R13"]},
+    {"name": "binding-energy-candidates-generator-user-first", "edits": [
+        {"file": SPECIES, "old": _EB_CHAIN, "new": "        eb = next(filter(None, self._eb_candidates()), None)\n"},
+        {"file": SPECIES, "old": "    @property\n    def binding_energy(self) -> float:\n", "new": _CAND % (_USR, _OWN)}], "rules": ["R3"]},
+    {"name": "type-validation-decorator-wrong-type", "edits": _decorated("GRAIN_DESORB_THERMAL"), "rules": ["R1"]},
+]
+BENIGN += [
+    {"name": "binding-energy-candidates-generator", "edits": [
+        {"file": SPECIES, "old": _EB_CHAIN, "new": "        eb = next(filter(None, self._eb_candidates()), None)\n"},
+        {"file": SPECIES, "old": "    @property\n    def binding_energy(self) -> float:\n", "new": _CAND % (_OWN, _USR)}]},
+    {"name": "type-validation-decorator", "edits": _decorated("GRAIN_FREEZE")},
+    {"name": "massnumber-local-accumulator", "file": SPECIES,
+     "old": "        self._massnumber = 0.0\n        for e in chemistrydata.periodic_table + chemistrydata.isotopes_table:\n            self._massnumber += self.element_count.get(e.Symbol, 0) * (\n                float(e.NumberofNeutrons) + float(e.NumberofProtons)\n            )\n",
+     "new": "        total = 0.0\n        for e in chemistrydata.periodic_table + chemistrydata.isotopes_table:\n            total += self.element_count.get(e.Symbol, 0) * (\n                float(e.NumberofNeutrons) + float(e.NumberofProtons)\n            )\n        self._massnumber = total\n"},
+    {"name": "guard-written-the-other-way-round", "file": RR, "old": 'rate = f"{eb_h2d} >= {spec.binding_energy} ? ({rate}) : 0.0"', "new": 'rate = f"{spec.binding_energy} <= {eb_h2d} ? ({rate}) : 0.0"'},
+]
+
 
 # ------------------------------------------------------------------ R12  who tunnels (HH93)
 
@@ -841,6 +1171,9 @@ def _r12_tunnelling(ctx, pkg):
                 conds += n.ifs
             elif isinstance(n, _ast.Return) and n.value is not None and isinstance(n.value, (_ast.Compare, _ast.BoolOp)) and k not in uses_q:
                 conds.append(n.value)          # a predicate helper: what it returns IS the condition
+            elif isinstance(n, _ast.Call):
+                # a test handed over as an argument (`_Reactant(eb, mass, re1.name in ["GH", "GH2"])`): decided where it is read
+                conds += [a for a in list(n.args) + [kw.value for kw in n.keywords] if isinstance(a, (_ast.Compare, _ast.BoolOp))]
         atoms = []
         for c in conds:
             todo_ = [c]
